@@ -19,6 +19,9 @@ Qed.
 Lemma known_prefix_spec p : known_prefix p = true <-> (p = 1 \/ p = 2 \/ p = 3 \/ p = 4).
 Proof. unfold known_prefix, pt_tink, pt_legacy, pt_raw, pt_crunchy. lia. Qed.
 
+Lemma valid_prefix_spec p : valid_prefix p = true <-> (p = 1 \/ p = 2 \/ p = 3 \/ p = 4 \/ p = 5).
+Proof. unfold valid_prefix, known_prefix, pt_tink, pt_legacy, pt_raw, pt_crunchy, pt_with_id_requirement. lia. Qed.
+
 Lemma known_status_spec s : known_status s = true <-> (s = 1 \/ s = 2 \/ s = 3).
 Proof. unfold known_status, st_enabled, st_disabled, st_destroyed. lia. Qed.
 
@@ -26,7 +29,7 @@ Lemma validate_key_spec k : validate_key k = true <-> key_known k.
 Proof.
   unfold validate_key, key_known. destruct k as [pk|].
   - destruct (k_data pk) as [kd|] eqn:E.
-    + rewrite andb_true_iff, known_prefix_spec, known_status_spec. split.
+    + rewrite andb_true_iff, valid_prefix_spec, known_status_spec. split.
       * intros [A B]. exists pk, kd. auto.
       * intros [pk' [kd' [H1 [H2 [H3 H4]]]]]. inversion H1; subst. auto.
     + split; [discriminate|]. intros [pk' [kd' [H1 [H2 _]]]]. inversion H1; subst. congruence.
@@ -675,7 +678,8 @@ Qed.
 Theorem handle_no_secrets_np ks : handle_no_secrets L ks <> Panic.
 Proof.
   unfold handle_no_secrets. destruct ks as [k|]; [|discriminate].
-  destruct (has_secrets k); [discriminate|]. apply handle_from_proto_np.
+  destruct (has_secrets k); [discriminate|]. apply bind_np; [apply handle_from_proto_np|].
+  intros h _. destruct (handle_has_secrets h); discriminate.
 Qed.
 
 Theorem read_no_secrets_np b : read_no_secrets L b <> Panic.
@@ -1377,7 +1381,7 @@ Qed.
 Theorem unknown_enum_rejected ks pk :
   In (Some pk) (ks_keys ks) ->
   (~ (k_status pk = 1 \/ k_status pk = 2 \/ k_status pk = 3)
-   \/ ~ (k_prefix pk = 1 \/ k_prefix pk = 2 \/ k_prefix pk = 3 \/ k_prefix pk = 4)) ->
+   \/ ~ (k_prefix pk = 1 \/ k_prefix pk = 2 \/ k_prefix pk = 3 \/ k_prefix pk = 4 \/ k_prefix pk = 5)) ->
   validate (Some ks) = false.
 Proof.
   intros Hin H. apply validate_false_of_not_wf. intros [_ [K _]]. rewrite Forall_forall in K.
@@ -1411,7 +1415,18 @@ Theorem handle_no_secrets_wf ks h : handle_no_secrets L ks = Ok h ->
   exists k, ks = Some k /\ has_secrets k = false /\ accepted_as k h.
 Proof.
   unfold handle_no_secrets. destruct ks as [k|]; [|discriminate]. destruct (has_secrets k) eqn:S; [discriminate|].
-  intros H. apply handle_from_proto_wf in H. destruct H as [k' [E H]]. inversion E; subst. exists k'. auto.
+  intros H. apply bind_ok in H. destruct H as [h0 [H H2]]. destruct (handle_has_secrets h0); [discriminate|].
+  inversion H2; subst h0. apply handle_from_proto_wf in H. destruct H as [k' [E H]]. inversion E; subst. exists k'. auto.
+Qed.
+
+(* since /repo b141c20: the handle is the one of the cleartext construction and
+   none of its key objects serialises to secret material *)
+Theorem handle_no_secrets_inv ks h : handle_no_secrets L ks = Ok h ->
+  handle_from_proto L ks = Ok h /\ handle_has_secrets h = false.
+Proof.
+  unfold handle_no_secrets. destruct ks as [k|]; [|discriminate]. destruct (has_secrets k); [discriminate|].
+  intros H. apply bind_ok in H. destruct H as [h0 [H H2]]. destruct (handle_has_secrets h0) eqn:S; [discriminate|].
+  inversion H2; subst h0. auto.
 Qed.
 
 Theorem read_no_secrets_wf b h : read_no_secrets L b = Ok h ->
@@ -1442,7 +1457,7 @@ Proof.
   assert (A : read_proto L (Some ks) = Err).
   { unfold read_proto. destruct (ks_keys ks); [reflexivity|exact M]. }
   assert (B : handle_no_secrets L (Some ks) = Err).
-  { unfold handle_no_secrets. destruct (has_secrets ks); [reflexivity|exact M]. }
+  { unfold handle_no_secrets. destruct (has_secrets ks); [reflexivity|rewrite M; reflexivity]. }
   split; [exact A|]. split; [exact B|]. split.
   - intros b D. unfold read, read_no_secrets. rewrite D. split; [|exact B].
     destruct (ks_keys ks); [reflexivity|exact M].
